@@ -8,7 +8,7 @@ import warnings
 import numpy as np
 from hypothesis import strategies as st
 
-from .. import common, gen as G, expr as X, loopvmap as LV
+from .. import common, gen as G, expr as X, loopvmap as LV, graphs as GR
 from ..common import Violation
 from . import c01
 from ._base import standard_run, standard_worker
@@ -22,7 +22,8 @@ RULE = (
     "of each text contains only imports, function definitions, assignments, calls, attribute/subscript/slice access, "
     "tuples/lists/dicts, names, constants, unary/binary/compare operators, assert and return - no loops, conditionals, "
     "comprehensions, lambdas, try/with; (2) the AST dumps of all variants are identical after masking integer literals "
-    "(and digits inside string constants). Non-trivial: variants differ in >=2 axis lengths and the code has >=3 statements; "
+    "(and digits inside string constants); (3) the base call is traced twice more with the compile cache cleared: same masked AST "
+    "(the structure must not depend on the identifiers einx draws for unnamed axes). Non-trivial: variants differ in >=2 axis lengths and the code has >=3 statements; "
     "distinct by canonical call."
 )
 ASSUMPTIONS = [
@@ -52,6 +53,9 @@ def c17_case(draw, tier="quick", k=0):
     if r <= 1:
         base = draw(G.call_case(ops=["vmapop"], quick=True, backends=[None]))
         base["adapter"] = "vmap"
+    elif r in (3, 4):
+        # several adjacent output-only axes (overlapping candidates of the common-subexpression pass)
+        base = draw(G.call_case(ops=G.FAMILY_OPS["elementwise"] + G.REDUCE + G.ARGFIND + ["id", "get_at"], quick=True, backends=C17_BACKENDS, flags={"bcast_heavy": True, "no_diag": True}))
     elif r == 2:
         # the one operation with an integer argument that relates to axis lengths (shift vs. length of the rolled axis)
         base = draw(G.call_case(ops=["roll"], quick=(tier == "quick"), backends=C17_BACKENDS))
@@ -178,6 +182,29 @@ def evaluate(rc, stats):
         stats.nt(G.canon_key(base))
     stats.count("variants", len(variants))
     stats.sample({"op": base["op"], "desc": base["desc"], "envs": [v["env"] for v in variants[:2]], "code": codes[0]}, cap=4)
+    # the structure is a function of the description, the backend and the argument kinds: tracing the very same call again
+    # (compile cache cleared) must give the same structure, whatever identifiers einx draws for unnamed axes
+    import einx as _einx
+
+    fn = _VM[0] if base.get("adapter") == "vmap" else getattr(_einx, base["op"])
+    for rep in range(2):
+        if GR.clear_op_cache(fn) == 0:
+            stats.count("retrace:no_cache_found")
+            break
+        try:
+            with warnings.catch_warnings():
+                warnings.simplefilter("ignore")
+                again = get_code(base)
+        except Exception as e:  # noqa: BLE001
+            return [Violation(common.exc_bucket(PROP, e, "retrace"), f"{base['op']}({base['desc']!r}) compiled once but raised {type(e).__name__} when traced again: {str(e)[:200]}")]
+        stats.count("retraces")
+        if masked_dump(ast.parse(again)) != dumps[0]:
+            return [
+                Violation(
+                    f"C17|retrace_differs|{G.family_of(base['op'])}",
+                    f"{base['op']}({base['desc']!r}) backend={base.get('backend')} env={base['env']}: tracing the same call twice gives different code:\n--- A\n{codes[0]}\n--- B\n{again}",
+                )
+            ]
     for i in range(1, len(dumps)):
         if dumps[i] != dumps[0]:
             return [
